@@ -31,37 +31,37 @@ var routeKinds = map[string]struct{ kind, reason string }{
 
 // Reviewed reference of the mask every checkAuth caller passes (R-C06-2). WEBUI = getRequiredWebUIAuthLevel().
 var reviewedMasks = map[string]string{
-	"certGenHandler":                      "ANY",
-	"VIPAuthHandler":                      "ANY",
-	"vipPushStartHandler":                 "ANY",
-	"VIPPollCheckHandler":                 "ANY",
-	"u2fSignRequest":                      "ANY",
-	"u2fSignResponse":                     "ANY",
-	"webauthnAuthLogin":                   "ANY",
-	"webauthnAuthFinish":                  "ANY",
-	"BootstrapOtpAuthHandler":             "ANY",
-	"oktaPushStartHandler":                "ANY",
-	"oktaPollCheckHandler":                "ANY",
-	"Okta2FAuthHandler":                   "ANY",
-	"TOTPAuthHandler":                     "ANY",
-	"verifyTOTPHandler":                   "WEBUI",
-	"validateNewTOTP":                     "WEBUI",
-	"GenerateNewTOTP":                     "WEBUI",
-	"totpTokenManagerHandler":             "WEBUI",
-	"u2fRegisterRequest":                  "WEBUI",
-	"u2fRegisterResponse":                 "WEBUI",
-	"webauthnBeginRegistration":           "WEBUI",
-	"webauthnFinishRegistration":          "WEBUI",
-	"profileHandler":                      "WEBUI",
-	"u2fTokenManagerHandler":              "WEBUI",
-	"SendAuthDocumentHandler":             "WEBUI",
-	"ShowAuthTokenHandler":                "WEBUI",
-	"idpOpenIDCAuthorizationHandler":      "WEBUI",
+	"certGenHandler":                        "ANY",
+	"VIPAuthHandler":                        "ANY",
+	"vipPushStartHandler":                   "ANY",
+	"VIPPollCheckHandler":                   "ANY",
+	"u2fSignRequest":                        "ANY",
+	"u2fSignResponse":                       "ANY",
+	"webauthnAuthLogin":                     "ANY",
+	"webauthnAuthFinish":                    "ANY",
+	"BootstrapOtpAuthHandler":               "ANY",
+	"oktaPushStartHandler":                  "ANY",
+	"oktaPollCheckHandler":                  "ANY",
+	"Okta2FAuthHandler":                     "ANY",
+	"TOTPAuthHandler":                       "ANY",
+	"verifyTOTPHandler":                     "WEBUI",
+	"validateNewTOTP":                       "WEBUI",
+	"GenerateNewTOTP":                       "WEBUI",
+	"totpTokenManagerHandler":               "WEBUI",
+	"u2fRegisterRequest":                    "WEBUI",
+	"u2fRegisterResponse":                   "WEBUI",
+	"webauthnBeginRegistration":             "WEBUI",
+	"webauthnFinishRegistration":            "WEBUI",
+	"profileHandler":                        "WEBUI",
+	"u2fTokenManagerHandler":                "WEBUI",
+	"SendAuthDocumentHandler":               "WEBUI",
+	"ShowAuthTokenHandler":                  "WEBUI",
+	"idpOpenIDCAuthorizationHandler":        "WEBUI",
 	"sendFailureToClientIfNotAdminUserOrCA": "WEBUI",
-	"sendFailureToClientIfNonAdmin":       "WEBUI|AuthTypeKeymasterX509",
-	"roleRequetingCertGenHandler":         "WEBUI|AuthTypeKeymasterX509",
-	"refreshRoleRequestingCertGenHandler": "AuthTypeIPCertificate",
-	"commonTOTPPostHandler":               "PARAM",
+	"sendFailureToClientIfNonAdmin":         "WEBUI|AuthTypeKeymasterX509",
+	"roleRequetingCertGenHandler":           "WEBUI|AuthTypeKeymasterX509",
+	"refreshRoleRequestingCertGenHandler":   "AuthTypeIPCertificate",
+	"commonTOTPPostHandler":                 "PARAM",
 }
 
 func init() { km.Register("C06", checkC06) }
@@ -125,7 +125,20 @@ func checkC06(c *km.Ctx) {
 	prCodeVerified := primErrNil("CodeVerified", RS+"JWTClaims", 0)
 	prCallerID := primErrNil("CallerIdentityOK", km.ModPath+"/lib/server/aws_identity_cert.getCallerIdentity", 1)
 
+	prAccount := km.Prim{Name: "AccountAllowed", Direct: func(f km.Fact) bool {
+		if f.Op != token.ILLEGAL || !f.Pol {
+			return false
+		}
+		cl, ok := f.X.(*ssa.Call)
+		if !ok || cl.Common().IsInvoke() {
+			return false
+		}
+		_, fld, ok2 := km.FieldPath(cl.Common().Value)
+		return ok2 && strings.HasSuffix(fld, "AccountIdValidator")
+	}}
+
 	required := map[string][]km.Prim{
+		"aws":         {prCallerID, prAccount},
 		"auth":        {prAuthed},
 		"password":    {prLimiter, prPassword},
 		"federated":   {prStateMatch, prExchange},
@@ -161,9 +174,6 @@ func checkC06(c *km.Ctx) {
 				switch kind {
 				case "public":
 					r.Add("R-C06-1", km.FuncName(fn), construct, posOf(c, sk.in), "public route: no protected sink may be reachable", "protected sink ("+sk.class+") reachable from public handler "+hname, false)
-				case "aws":
-					// handled below (dynamic generator call)
-					r.Add("R-C06-1", km.FuncName(fn), construct, posOf(c, sk.in), "aws route: signing only through the issuer's generator call", "unexpected static protected sink", false)
 				default:
 					ok := true
 					why := ""
@@ -193,17 +203,6 @@ func checkC06(c *km.Ctx) {
 	// AWS path: the generator is invoked dynamically inside the issuer; require verified identity + allowed account
 	if gen := c.MustFunc("R-C06-1", "lib/server/aws_identity_cert", "(*Issuer).generateRoleCert"); gen != nil {
 		reqH := c.MustFunc("R-C06-1", "lib/server/aws_identity_cert", "(*Issuer).requestHandler")
-		prAccount := km.Prim{Name: "AccountAllowed", Direct: func(f km.Fact) bool {
-			if f.Op != token.ILLEGAL || !f.Pol {
-				return false
-			}
-			cl, ok := f.X.(*ssa.Call)
-			if !ok || cl.Common().IsInvoke() {
-				return false
-			}
-			_, fld, ok2 := km.FieldPath(cl.Common().Value)
-			return ok2 && strings.HasSuffix(fld, "AccountIdValidator")
-		}}
 		n := 0
 		km.Instrs(gen, func(in ssa.Instruction) {
 			cl, ok := in.(*ssa.Call)
